@@ -762,6 +762,7 @@ class DAG(BaseDAG[P, RVDAG]):
                     continue
 
                 values = asdict(exec_node)
+                values["exec_function"] = exec_node.exec_function
                 values["id_"] = new_id
 
                 values["args"] = [
